@@ -33,7 +33,7 @@ def shards(tier):
 def required_classes(tier):
     out = []
     for g in ("g1", "g2"):
-        out += ["%s:sub:%s" % (g, k) for k in ("T:endomorphism-eigenspace", "kG", "kG+T", "T", "random", "infinity", "rescaled", "large-cofactor")]
+        out += ["%s:sub:%s" % (g, k) for k in ("fold-colliding-x", "T:endomorphism-eigenspace", "kG", "kG+T", "T", "random", "infinity", "rescaled", "large-cofactor")]
         out += ["%s:clear:%s" % (g, k) for k in ("random", "subgroup", "torsion", "infinity")]
     out += ["constants", "soak:distinct-points"]
     return out
@@ -124,6 +124,22 @@ def run(rec):
                     sc("T:endomorphism-eigenspace", V)
                     sc("T:endomorphism-eigenspace", E.add(kG, V), scaled=True)
                     sc("T:endomorphism-eigenspace", E.add(kG, E.mul(V, rng.randrange(1, q))))
+            # a point whose x-coordinate COLLIDES with that of a point just checked under cheap folds (xor / add of limbs, low or high
+            # bits, hash()): a memo keyed by a fold of x would hand it the other point's answer
+            if g == 1:
+                Pm = E.mul(gen, rng.randrange(1, R))
+                sc("kG", Pm)
+                got = 0
+                for xq in CG.fold_colliding(Pm[0][0], F.p, rng, 10):
+                    lift = E.lift_x((xq,))
+                    if lift:
+                        sc("fold-colliding-x", lift[0] if lift[0][1] == Pm[1] or rng.random() < 0.5 else lift[-1])
+                        sc("kG", Pm)
+                        got += 1
+                        if got >= 6:
+                            break
+            else:
+                rec.case("g2:sub:fold-colliding-x", None, nontrivial=False)
             # large cofactor order: [r]X for random X has order dividing h (almost surely large)
             X = E.rand_point(rng)
             big = E.mul(X, R)
